@@ -420,7 +420,8 @@ func isAsyncTaker(f *ssa.Function) bool {
 func funcValuesOf(v ssa.Value) []*ssa.Function {
 	switch x := stripConv(v).(type) {
 	case *ssa.MakeClosure:
-		if f, ok := x.Fn.(*ssa.Function); ok {
+		// a literal, or a method bound to its receiver (x.m used as a value)
+		if f := closureTarget(x); f != nil {
 			return []*ssa.Function{f}
 		}
 	case *ssa.Function:
